@@ -90,5 +90,13 @@ def field_names(tokens):
     return out
 
 
+# the tag member of an internally tagged struct variant: format!("\"{}\": \"{}\",", "t", <name expression>)
+TAG_VALUE_RE = re.compile(r'format ! \("\\"\{\}\\": \\"\{\}\\"," , ' + _LIT + r' , (?::: std :: string :: ToString :: to_string \(& \()?' + _LIT)
+
+
+def tag_values(tokens):
+    return [rust_unescape(m.group(2)) for m in TAG_VALUE_RE.finditer(tokens)]
+
+
 def unit_variant_names(tokens):
     return [rust_unescape(m.group(1)) for m in VARIANT_UNIT_RE.finditer(tokens)]
